@@ -17,6 +17,10 @@ CHECKS = {
              note="trusted: inner API functions stubbed to recorders; Header::block_hash = injective id; BTreeMap model; all 432 flag/network combinations are additionally replayed natively through the public wrappers; send_transaction is decided with C19"),
  'C16': dict(text="symbolic execution of the charging code of every endpoint (real charge_cycles / verify_has_enough_cycles bodies over a model of the IC cycles API) with the whole fee table, attached cycles, instruction count and inner outcome symbolic: accepted total equals the published formula per outcome, is 0 for query variants, never exceeds the maximum, nothing is accepted on refusal; client costs of ic-cdk-bitcoin-canister vs the default fee tables from their MIR",
              note="assumes base <= maximum and flat fee <= maximum (tables violating it are reported, not judged); native replay drives the mocked cycles API through the cfg-guarded hooks; send_transaction's charge is decided with C19"),
+ 'C12': dict(text="symbolic execution of validate_block / ensure_unique_transactions from the MIR on blocks of up to 6/7 transactions with symbolic identities, coinbase flags and merkle verdict: Ok iff all four structural rules hold, error = first failing rule; real blocks incl. CVE-2012-2459 mutations are run natively through the hook",
+             note="trusted: normalised txid = injective name; the merkle construction of the dependency (that a root-preserving mutation must repeat a transaction); header part is C11"),
+ 'C17': dict(text="symbolic execution of compare / calculate_height_target / median / calculate_target / Config::for_target from the watchdog MIR for every success/failure pattern of up to 5/6 explorer results with symbolic heights, symbolic or unknown canister height and the five targets, against the statement's rule written over order statistics (symmetric in the results); two fetch rounds through the real storage functions",
+             note="trusted: sort model, HashMap/thread_local models; heights in [1000, 2^40); the HTTP fetch itself is not executed"),
 }
 NA = {
 }
@@ -26,7 +30,7 @@ m = {
  "setup_cmd": "./setup.sh",
  "hooks": {"guard": "dfinity_bitcoin_canister_verif",
            "enable": "RUSTFLAGS='--cfg dfinity_bitcoin_canister_verif' for the native replay crate only (runtime::verif_hooks: mocked cycles API and performance counter control); the MIR is always dumped with the guard off",
-           "baseline_off_cmd": "cd /repo && cargo test --workspace --no-fail-fast --offline", "source_commits": ["3049359b"], "add_only": True},
+           "baseline_off_cmd": "cd /repo && cargo test --workspace --no-fail-fast --offline", "source_commits": ["3049359b", "0ef99e05", "26284dd7"], "add_only": True},
  "engines": [
   {"name": "mirsym", "path": "mirsym/", "serves_properties": sorted(CHECKS), "kind_free_text": "symbolic execution of rustc MIR (regenerated from /repo on every run) with z3; heap shapes enumerated, scalars symbolic"},
   {"name": "replay", "path": "replay/", "serves_properties": sorted(CHECKS), "kind_free_text": "native Rust driver over the real canister code: translator validation and counterexample replay"}],
